@@ -80,6 +80,11 @@ CHECKS = {
     category="model_checking", design_ref="4 C20",
     text="TLC enumerates every quality vector of length 1-3 (thorough 4) over an exponent lattice x base measures x shifts and checks the algebraic laws of P(i) = b_i 2^k_i / sum; each vector is passed as qualities k ln2 s/(coef eps) (+ shifts up to 5e5) to Mechanism.exponential_mechanism (array, dict, dict with base_measure in another key order), mst/adaptive_grid exponential_mechanism (standard and monotonic), mwem worst_approximated (bounded x penalty) and AIM.worst_approximated, and the p= vector handed to the sampler must equal the rational law (1e-12 plus the rounding of the inputs) and the returned key must be the sampled one; extreme magnitudes (1e6 gaps, all-negative penalised scores), eps=inf and the noise-scale helpers / sampler arguments are checked directly.",
     note="autodp calibrator replaced by a stand-in (only linearity and the bounded doubling of gaussian_noise_scale are checked); permute_and_flip and generalized_exponential_mechanism not covered; numpy's generators trusted."),
+ "C07": dict(
+    technique="TLA+ spec of bisection over every monotone predicate on a grid (spec/dp/Bisect.tla: SoundEnd, Tight) model-checked by TLC; hook-H6 iteration traces with an independently evaluated predicate and relations between returned values validated by spec/dp/BisectTrace.tla",
+    category="model_checking", design_ref="4 C07",
+    text="TLC checks for every threshold on a 64-point (thorough 256) grid and both search orientations that the end the implementation returns is the sound one and that the neighbouring grid point violates the predicate. Real cdp_rho / cdp_eps / cdp_delta calls on log grids and random points of the stated ranges are traced (hook H6): at every iteration the end that moves must be the one prescribed by an independent evaluation of the published Renyi-order bound (dense alpha grid + golden section), the midpoint and the untouched end are checked, and the returned value must be the sound end. Returned values must satisfy, as TLC comparisons of fixed-point logarithms: implied delta <= target, exact Gaussian-mechanism delta <= implied delta, tightness (a 1e-6 larger budget / smaller epsilon violates the target), cdp_delta = optimum of the bound, monotonicity in each argument, and the two inverse relations where the constraint is active.",
+    note="Level for the analytic clauses is 'other': exp/log1p/erfc are evaluated by the harness, TLC decides the comparisons and branch consistency. Bound minimised over alpha >= 1.01 (the implementation's documented stability floor)."),
 }
 
 NOT_YET = "check not built yet (work in progress, see DESIGN.md section 8 build order)"
